@@ -91,13 +91,17 @@ func c06Chunks() []string {
 		strings.Repeat("short\n", 300)}
 }
 
-func c06Run(c *Ctx, sc c06Scen, seed uint64) {
+func c06Run(c *Ctx, sc c06Scen, seed uint64) { c06RunAs(c, sc, seed, "C06") }
+
+// c06RunAs: the fail -> rerun histories; prop is the property on whose behalf they are checked (C11 uses
+// them for "the reproduction of a fail-file case is judged on its own execution").
+func c06RunAs(c *Ctx, sc c06Scen, seed uint64, prop string) {
 	prog := c06Prog(sc)
 	CleanFailFiles()
 	desc := fmt.Sprintf("name=%q chunks=%v size=%s kind=%s", trunc(sc.name, 30), chunkDesc(sc.chunks), sc.size, sc.kind)
 	replay := map[string]any{"name": sc.name, "chunks": chunkDesc(sc.chunks), "size": sc.size, "kind": sc.kind.String(), "seed": seed}
 	viol := func(clause, detail string) {
-		c.Violate(Violation{Sig: "C06 " + clause, Detail: detail + "\nscenario: " + desc, Replay: replay})
+		c.Violate(Violation{Sig: prop + " " + clause, Detail: detail + "\nscenario: " + desc, Replay: replay})
 	}
 	cfg := Config{Checks: 3, Seed: seed, ShrinkMS: 40, Name: sc.name}
 	env1 := NewEnv(nil, prog.Base)
